@@ -7,37 +7,71 @@ open Conform
 
 theorem conforms_ml_v5_ArrayFeatureExtractor : entryOK ("ml_v3._ArrayFeatureExtractor", Generated.Ctors.ml_v3.f_array_feature_extractor, Generated.Schemas.ml_v3.s_ArrayFeatureExtractor_1) = true := Generated.Conforms.ml_v3.conforms_ml_v3_ArrayFeatureExtractor
 
+theorem slots_ml_v5_ArrayFeatureExtractor : slotOK ("ml_v3._ArrayFeatureExtractor", Generated.Ctors.ml_v3.f_array_feature_extractor, Generated.Schemas.ml_v3.s_ArrayFeatureExtractor_1) = true := Generated.Conforms.ml_v3.slots_ml_v3_ArrayFeatureExtractor
+
 theorem conforms_ml_v5_Binarizer : entryOK ("ml_v3._Binarizer", Generated.Ctors.ml_v3.f_binarizer, Generated.Schemas.ml_v3.s_Binarizer_1) = true := Generated.Conforms.ml_v3.conforms_ml_v3_Binarizer
+
+theorem slots_ml_v5_Binarizer : slotOK ("ml_v3._Binarizer", Generated.Ctors.ml_v3.f_binarizer, Generated.Schemas.ml_v3.s_Binarizer_1) = true := Generated.Conforms.ml_v3.slots_ml_v3_Binarizer
 
 theorem conforms_ml_v5_CastMap : entryOK ("ml_v3._CastMap", Generated.Ctors.ml_v3.f_cast_map, Generated.Schemas.ml_v3.s_CastMap_1) = true := Generated.Conforms.ml_v3.conforms_ml_v3_CastMap
 
+theorem slots_ml_v5_CastMap : slotOK ("ml_v3._CastMap", Generated.Ctors.ml_v3.f_cast_map, Generated.Schemas.ml_v3.s_CastMap_1) = true := Generated.Conforms.ml_v3.slots_ml_v3_CastMap
+
 theorem conforms_ml_v5_CategoryMapper : entryOK ("ml_v3._CategoryMapper", Generated.Ctors.ml_v3.f_category_mapper, Generated.Schemas.ml_v3.s_CategoryMapper_1) = true := Generated.Conforms.ml_v3.conforms_ml_v3_CategoryMapper
+
+theorem slots_ml_v5_CategoryMapper : slotOK ("ml_v3._CategoryMapper", Generated.Ctors.ml_v3.f_category_mapper, Generated.Schemas.ml_v3.s_CategoryMapper_1) = true := Generated.Conforms.ml_v3.slots_ml_v3_CategoryMapper
 
 theorem conforms_ml_v5_DictVectorizer : entryOK ("ml_v3._DictVectorizer", Generated.Ctors.ml_v3.f_dict_vectorizer, Generated.Schemas.ml_v3.s_DictVectorizer_1) = true := Generated.Conforms.ml_v3.conforms_ml_v3_DictVectorizer
 
+theorem slots_ml_v5_DictVectorizer : slotOK ("ml_v3._DictVectorizer", Generated.Ctors.ml_v3.f_dict_vectorizer, Generated.Schemas.ml_v3.s_DictVectorizer_1) = true := Generated.Conforms.ml_v3.slots_ml_v3_DictVectorizer
+
 theorem conforms_ml_v5_FeatureVectorizer : entryOK ("ml_v3._FeatureVectorizer", Generated.Ctors.ml_v3.f_feature_vectorizer, Generated.Schemas.ml_v3.s_FeatureVectorizer_1) = true := Generated.Conforms.ml_v3.conforms_ml_v3_FeatureVectorizer
+
+theorem slots_ml_v5_FeatureVectorizer : slotOK ("ml_v3._FeatureVectorizer", Generated.Ctors.ml_v3.f_feature_vectorizer, Generated.Schemas.ml_v3.s_FeatureVectorizer_1) = true := Generated.Conforms.ml_v3.slots_ml_v3_FeatureVectorizer
 
 theorem conforms_ml_v5_Imputer : entryOK ("ml_v3._Imputer", Generated.Ctors.ml_v3.f_imputer, Generated.Schemas.ml_v3.s_Imputer_1) = true := Generated.Conforms.ml_v3.conforms_ml_v3_Imputer
 
+theorem slots_ml_v5_Imputer : slotOK ("ml_v3._Imputer", Generated.Ctors.ml_v3.f_imputer, Generated.Schemas.ml_v3.s_Imputer_1) = true := Generated.Conforms.ml_v3.slots_ml_v3_Imputer
+
 theorem conforms_ml_v5_LabelEncoder : entryOK ("ml_v4._LabelEncoder", Generated.Ctors.ml_v4.f_label_encoder, Generated.Schemas.ml_v4.s_LabelEncoder_4) = true := Generated.Conforms.ml_v4.conforms_ml_v4_LabelEncoder
+
+theorem slots_ml_v5_LabelEncoder : slotOK ("ml_v4._LabelEncoder", Generated.Ctors.ml_v4.f_label_encoder, Generated.Schemas.ml_v4.s_LabelEncoder_4) = true := Generated.Conforms.ml_v4.slots_ml_v4_LabelEncoder
 
 theorem conforms_ml_v5_LinearClassifier : entryOK ("ml_v3._LinearClassifier", Generated.Ctors.ml_v3.f_linear_classifier, Generated.Schemas.ml_v3.s_LinearClassifier_1) = true := Generated.Conforms.ml_v3.conforms_ml_v3_LinearClassifier
 
+theorem slots_ml_v5_LinearClassifier : slotOK ("ml_v3._LinearClassifier", Generated.Ctors.ml_v3.f_linear_classifier, Generated.Schemas.ml_v3.s_LinearClassifier_1) = true := Generated.Conforms.ml_v3.slots_ml_v3_LinearClassifier
+
 theorem conforms_ml_v5_LinearRegressor : entryOK ("ml_v3._LinearRegressor", Generated.Ctors.ml_v3.f_linear_regressor, Generated.Schemas.ml_v3.s_LinearRegressor_1) = true := Generated.Conforms.ml_v3.conforms_ml_v3_LinearRegressor
+
+theorem slots_ml_v5_LinearRegressor : slotOK ("ml_v3._LinearRegressor", Generated.Ctors.ml_v3.f_linear_regressor, Generated.Schemas.ml_v3.s_LinearRegressor_1) = true := Generated.Conforms.ml_v3.slots_ml_v3_LinearRegressor
 
 theorem conforms_ml_v5_Normalizer : entryOK ("ml_v3._Normalizer", Generated.Ctors.ml_v3.f_normalizer, Generated.Schemas.ml_v3.s_Normalizer_1) = true := Generated.Conforms.ml_v3.conforms_ml_v3_Normalizer
 
+theorem slots_ml_v5_Normalizer : slotOK ("ml_v3._Normalizer", Generated.Ctors.ml_v3.f_normalizer, Generated.Schemas.ml_v3.s_Normalizer_1) = true := Generated.Conforms.ml_v3.slots_ml_v3_Normalizer
+
 theorem conforms_ml_v5_OneHotEncoder : entryOK ("ml_v3._OneHotEncoder", Generated.Ctors.ml_v3.f_one_hot_encoder, Generated.Schemas.ml_v3.s_OneHotEncoder_1) = true := Generated.Conforms.ml_v3.conforms_ml_v3_OneHotEncoder
+
+theorem slots_ml_v5_OneHotEncoder : slotOK ("ml_v3._OneHotEncoder", Generated.Ctors.ml_v3.f_one_hot_encoder, Generated.Schemas.ml_v3.s_OneHotEncoder_1) = true := Generated.Conforms.ml_v3.slots_ml_v3_OneHotEncoder
 
 theorem conforms_ml_v5_SVMClassifier : entryOK ("ml_v3._SVMClassifier", Generated.Ctors.ml_v3.f_svmclassifier, Generated.Schemas.ml_v3.s_SVMClassifier_1) = true := Generated.Conforms.ml_v3.conforms_ml_v3_SVMClassifier
 
+theorem slots_ml_v5_SVMClassifier : slotOK ("ml_v3._SVMClassifier", Generated.Ctors.ml_v3.f_svmclassifier, Generated.Schemas.ml_v3.s_SVMClassifier_1) = true := Generated.Conforms.ml_v3.slots_ml_v3_SVMClassifier
+
 theorem conforms_ml_v5_SVMRegressor : entryOK ("ml_v3._SVMRegressor", Generated.Ctors.ml_v3.f_svmregressor, Generated.Schemas.ml_v3.s_SVMRegressor_1) = true := Generated.Conforms.ml_v3.conforms_ml_v3_SVMRegressor
+
+theorem slots_ml_v5_SVMRegressor : slotOK ("ml_v3._SVMRegressor", Generated.Ctors.ml_v3.f_svmregressor, Generated.Schemas.ml_v3.s_SVMRegressor_1) = true := Generated.Conforms.ml_v3.slots_ml_v3_SVMRegressor
 
 theorem conforms_ml_v5_Scaler : entryOK ("ml_v3._Scaler", Generated.Ctors.ml_v3.f_scaler, Generated.Schemas.ml_v3.s_Scaler_1) = true := Generated.Conforms.ml_v3.conforms_ml_v3_Scaler
 
+theorem slots_ml_v5_Scaler : slotOK ("ml_v3._Scaler", Generated.Ctors.ml_v3.f_scaler, Generated.Schemas.ml_v3.s_Scaler_1) = true := Generated.Conforms.ml_v3.slots_ml_v3_Scaler
+
 theorem conforms_ml_v5_TreeEnsemble : entryOK ("ml_v5._TreeEnsemble", Generated.Ctors.ml_v5.f_tree_ensemble, Generated.Schemas.ml_v5.s_TreeEnsemble_5) = true := by decide +kernel
 
+theorem slots_ml_v5_TreeEnsemble : slotOK ("ml_v5._TreeEnsemble", Generated.Ctors.ml_v5.f_tree_ensemble, Generated.Schemas.ml_v5.s_TreeEnsemble_5) = true := by decide +kernel
+
 theorem conforms_ml_v5_ZipMap : entryOK ("ml_v3._ZipMap", Generated.Ctors.ml_v3.f_zip_map, Generated.Schemas.ml_v3.s_ZipMap_1) = true := Generated.Conforms.ml_v3.conforms_ml_v3_ZipMap
+
+theorem slots_ml_v5_ZipMap : slotOK ("ml_v3._ZipMap", Generated.Ctors.ml_v3.f_zip_map, Generated.Schemas.ml_v3.s_ZipMap_1) = true := Generated.Conforms.ml_v3.slots_ml_v3_ZipMap
 
 /-- every operator/module pair of this module without a listed deviation -/
 def table : List Entry :=
@@ -82,6 +116,50 @@ theorem table_all : table.all entryOK = true :=
 
 theorem table_conforms : ∀ e ∈ table, entryOK e = true :=
   fun e he => List.all_eq_true.mp table_all e he
+
+/-- every operator/module pair of this module (deviating ones included: deviations concern attributes) -/
+def allEntries : List Entry :=
+  [
+   ("ml_v3._ArrayFeatureExtractor", Generated.Ctors.ml_v3.f_array_feature_extractor, Generated.Schemas.ml_v3.s_ArrayFeatureExtractor_1), 
+   ("ml_v3._Binarizer", Generated.Ctors.ml_v3.f_binarizer, Generated.Schemas.ml_v3.s_Binarizer_1), 
+   ("ml_v3._CastMap", Generated.Ctors.ml_v3.f_cast_map, Generated.Schemas.ml_v3.s_CastMap_1), 
+   ("ml_v3._CategoryMapper", Generated.Ctors.ml_v3.f_category_mapper, Generated.Schemas.ml_v3.s_CategoryMapper_1), 
+   ("ml_v3._DictVectorizer", Generated.Ctors.ml_v3.f_dict_vectorizer, Generated.Schemas.ml_v3.s_DictVectorizer_1), 
+   ("ml_v3._FeatureVectorizer", Generated.Ctors.ml_v3.f_feature_vectorizer, Generated.Schemas.ml_v3.s_FeatureVectorizer_1), 
+   ("ml_v3._Imputer", Generated.Ctors.ml_v3.f_imputer, Generated.Schemas.ml_v3.s_Imputer_1), 
+   ("ml_v4._LabelEncoder", Generated.Ctors.ml_v4.f_label_encoder, Generated.Schemas.ml_v4.s_LabelEncoder_4), 
+   ("ml_v3._LinearClassifier", Generated.Ctors.ml_v3.f_linear_classifier, Generated.Schemas.ml_v3.s_LinearClassifier_1), 
+   ("ml_v3._LinearRegressor", Generated.Ctors.ml_v3.f_linear_regressor, Generated.Schemas.ml_v3.s_LinearRegressor_1), 
+   ("ml_v3._Normalizer", Generated.Ctors.ml_v3.f_normalizer, Generated.Schemas.ml_v3.s_Normalizer_1), 
+   ("ml_v3._OneHotEncoder", Generated.Ctors.ml_v3.f_one_hot_encoder, Generated.Schemas.ml_v3.s_OneHotEncoder_1), 
+   ("ml_v3._SVMClassifier", Generated.Ctors.ml_v3.f_svmclassifier, Generated.Schemas.ml_v3.s_SVMClassifier_1), 
+   ("ml_v3._SVMRegressor", Generated.Ctors.ml_v3.f_svmregressor, Generated.Schemas.ml_v3.s_SVMRegressor_1), 
+   ("ml_v3._Scaler", Generated.Ctors.ml_v3.f_scaler, Generated.Schemas.ml_v3.s_Scaler_1), 
+   ("ml_v5._TreeEnsemble", Generated.Ctors.ml_v5.f_tree_ensemble, Generated.Schemas.ml_v5.s_TreeEnsemble_5), 
+   ("ml_v3._ZipMap", Generated.Ctors.ml_v3.f_zip_map, Generated.Schemas.ml_v3.s_ZipMap_1)]
+
+theorem slots_all : allEntries.all slotOK = true :=
+  all_cons slots_ml_v5_ArrayFeatureExtractor (
+  all_cons slots_ml_v5_Binarizer (
+  all_cons slots_ml_v5_CastMap (
+  all_cons slots_ml_v5_CategoryMapper (
+  all_cons slots_ml_v5_DictVectorizer (
+  all_cons slots_ml_v5_FeatureVectorizer (
+  all_cons slots_ml_v5_Imputer (
+  all_cons slots_ml_v5_LabelEncoder (
+  all_cons slots_ml_v5_LinearClassifier (
+  all_cons slots_ml_v5_LinearRegressor (
+  all_cons slots_ml_v5_Normalizer (
+  all_cons slots_ml_v5_OneHotEncoder (
+  all_cons slots_ml_v5_SVMClassifier (
+  all_cons slots_ml_v5_SVMRegressor (
+  all_cons slots_ml_v5_Scaler (
+  all_cons slots_ml_v5_TreeEnsemble (
+  all_cons slots_ml_v5_ZipMap (
+  all_nil)))))))))))))))))
+
+theorem table_slots : ∀ e ∈ allEntries, slotOK e = true :=
+  fun e he => List.all_eq_true.mp slots_all e he
 
 /-- pairs with listed deviations (known findings), each with what is excepted -/
 def deviating : List (List String × Entry) :=
